@@ -19,6 +19,8 @@ UFUNCS = {
     'float32': 'id', 'float64': 'id', 'float': 'id', 'int64': 'int', 'int32': 'int', 'int': 'int',
     'rint': 'round', 'round': 'round', 'sign': 'sign', 'square': 'square',
 }
+ODD_FUNCS = {'sin', 'tan', 'arctan', 'arcsin', 'sign', 'radians', 'degrees'}
+EVEN_FUNCS = {'cos', 'abs'}
 EXT_MODS = ('numpy.', 'math.', 'builtins.')
 CONSTS = {'numpy.nan': 'nan', 'numpy.NaN': 'nan', 'numpy.NAN': 'nan', 'math.nan': 'nan', 'numpy.inf': 'inf',
           'math.inf': 'inf', 'numpy.pi': 'pi', 'math.pi': 'pi', 'numpy.e': 'e', 'math.e': 'e'}
@@ -436,6 +438,10 @@ class Interp:
             return args[0]
         if name == 'square':
             return args[0] * args[0]
+        if name == 'radians':
+            return args[0] * Rat.sym('pi') / Rat.const(180)
+        if name == 'degrees':
+            return args[0] * Rat.const(180) / Rat.sym('pi')
         if name == 'hypot':
             return self.app('sqrt', [args[0] * args[0] + args[1] * args[1]])
         if name == 'int':
@@ -459,6 +465,10 @@ class Interp:
                 return Rat.const(r)
         if name == 'pow':
             return Rat.atom(App('pow', args))
+        if name in ODD_FUNCS and len(args) == 1 and _lead(args[0]) < 0:
+            return -Rat.atom(App(name, [-args[0]]))
+        if name in EVEN_FUNCS and len(args) == 1 and _lead(args[0]) < 0:
+            return Rat.atom(App(name, [-args[0]]))
         if name == 'arctan2' and args[0].d.is_const() and args[1].d.is_const():
             # arctan2 is invariant under a common positive scale
             ref = args[0] if not args[0].n.is_zero() else args[1]
